@@ -220,8 +220,13 @@ fn from_effective(p: &Parameters, e: &[f64; 6]) -> Joints {
 /// a truth configuration (effective angles) of the requested pose class
 fn truth_for(class: &str, p: &mut Parameters, r: &mut StdRng) -> [f64; 6] {
     let psi3 = |p: &Parameters| p.a2.atan2(p.c3);
+    let mut attempts = 0;
     loop {
+        attempts += 1;
         let mut e: [f64; 6] = std::array::from_fn(|_| r.gen_range(-PI..PI));
+        // (a geometry that cannot take the requested class - e.g. a shoulder offset longer than the arm - gets a
+        //  generic posture after 400 draws)
+        let class = if attempts > 400 { if attempts == 401 && std::env::var("VERIF_LOUD").is_ok() { eprintln!("truth_for: no {} posture for {:?}", class, robots::params_json(p)); } "fallback" } else { class };
         match class {
             "j5-zero" => e[4] = 0.0,
             "j5-tiny" => e[4] = 10f64.powf(r.gen_range(-12.5..-8.5)) * if r.gen_bool(0.5) { 1.0 } else { -1.0 },
